@@ -72,3 +72,9 @@
 (declare-fun yamlParseF (String) Val)
 (declare-fun yamlParseE (String) ErrV)
 (declare-const osEnviron SLst)
+; encoders bound to a buffer: the n-th Encode call of an encoder with configuration c appends encS(c, v, n) (or fails)
+(declare-fun encS (Int Val Int) String)
+(declare-fun encE (Int Val Int) ErrV)
+(declare-const codecJSON Int)
+(declare-const codecYAML Int)
+(declare-const codecTOML Int)
